@@ -8,8 +8,10 @@
    id); extension 0 = no / unrecognised extension. A [langs] table is the [languages] section of
    the configuration: extension id -> custom language id, first match (single-owner extensions;
    two custom languages claiming one extension is D23 / C20, registered in HashMap order).
-   The configuration hash is modelled as the table itself (SHA-256 and serde_json assumed
-   injective); [None] is a hash string that is no configuration's hash. Times are whole seconds. *)
+   The configuration hash is the third section parameter [chash] (compute_config_hash: SHA-256 of
+   the serialised table); the theorems assume it injective on tables, the run checks that different
+   tables observed give different hashes. A stored hash [None] is a string that is no hash value.
+   Times are whole seconds. *)
 From Coq Require Import NArith List Bool.
 Import ListNotations.
 Open Scope N_scope.
@@ -23,14 +25,9 @@ Definition path := (N * N)%type.
 Definition path_eqb (a b : path) : bool := N.eqb (fst a) (fst b) && N.eqb (snd a) (snd b).
 
 Definition langs := list (N * N).
-Fixpoint langs_eqb (a b : langs) : bool :=
-  match a, b with
-  | [], [] => true
-  | (x1, y1) :: a', (x2, y2) :: b' => N.eqb x1 x2 && N.eqb y1 y2 && langs_eqb a' b'
-  | _, _ => false
-  end.
-Definition hash_eqb (h : option langs) (c : langs) : bool :=
-  match h with Some l => langs_eqb l c | None => false end.
+(* the stored config_hash: Some h = the hash value h, None = a string that is no hash value *)
+Definition hash_eqb (h : option N) (cur : N) : bool :=
+  match h with Some x => N.eqb x cur | None => false end.
 
 Fixpoint custom_lang (c : langs) (ext : N) : option N :=
   match c with [] => None | (e, l) :: tl => if N.eqb e ext then Some l else custom_lang tl ext end.
@@ -50,7 +47,7 @@ Definition CACHE_VERSION : N := 3.
 Inductive cache_file :=
 | CAbsent
 | CCorrupt                                                   (* does not parse as a Cache *)
-| CValid (version : N) (hash : option langs) (entries : list (path * centry)).
+| CValid (version : N) (hash : option N) (entries : list (path * centry)).
 
 Record world := mkW { w_files : list (path * file); w_cfg : langs; w_cache : cache_file }.
 Definition world0 : world := mkW [] [] CAbsent.
@@ -63,9 +60,9 @@ Fixpoint remove_key {A} (p : path) (l : list (path * A)) : list (path * A) :=
 Definition set_key {A} (p : path) (a : A) (l : list (path * A)) : list (path * A) := (p, a) :: remove_key p l.
 
 (* load_cache: None when absent, unparsable, foreign version or other configuration hash *)
-Definition load_cache (cf : cache_file) (cfg : langs) : option (list (path * centry)) :=
+Definition load_cache (cf : cache_file) (cur_hash : N) : option (list (path * centry)) :=
   match cf with
-  | CValid v h es => if N.eqb v CACHE_VERSION && hash_eqb h cfg then Some es else None
+  | CValid v h es => if N.eqb v CACHE_VERSION && hash_eqb h cur_hash then Some es else None
   | _ => None
   end.
 
@@ -79,6 +76,7 @@ Definition metadata_matches (e : centry) (mtime size : N) : bool :=
 Section WithOracles.
 Variable truth : N -> N -> option lstats.     (* language id -> content id -> counter result *)
 Variable csize : N -> N.                       (* content id -> size in bytes *)
+Variable chash : langs -> N.                   (* compute_config_hash: [languages] table -> hash value *)
 
 (* process_file_with_cache for one file: (Success stats | nothing, cache afterwards) *)
 Definition process (cfg : langs) (now : N) (es : list (path * centry)) (pf : path * file)
@@ -115,9 +113,9 @@ Definition in_scope (excl : list path) (pf : path * file) : bool := negb (exists
 (* one invocation with the cache enabled: output and the world afterwards (the cache is saved
    whether or not one could be loaded) *)
 Definition run_cached (w : world) (excl : list path) (now : N) : list (path * lstats) * world :=
-  let es0 := match load_cache (w_cache w) (w_cfg w) with Some es => es | None => [] end in
+  let es0 := match load_cache (w_cache w) (chash (w_cfg w)) with Some es => es | None => [] end in
   let (out, es') := process_all (w_cfg w) now es0 (filter (in_scope excl) (w_files w)) in
-  (out, mkW (w_files w) (w_cfg w) (CValid CACHE_VERSION (Some (w_cfg w)) es')).
+  (out, mkW (w_files w) (w_cfg w) (CValid CACHE_VERSION (Some (chash (w_cfg w))) es')).
 
 (* the same invocation with --no-sloc-cache: fresh in-memory cache, nothing loaded, nothing saved *)
 Definition run_uncached (w : world) (excl : list path) (now : N) : list (path * lstats) :=
